@@ -349,6 +349,8 @@ pub fn replay(args: &[String]) -> i32 {
     let mut unreached = 0usize;
     let mut edges_done = 0usize;
     let mut ok_edges = 0usize;
+    // anti-vacuity: how often each operation was fired with each kind of prescribed outcome
+    let mut by_op: std::collections::BTreeMap<String, [usize; 2]> = Default::default();
     if edges_on {
         for (oi, &s) in order.iter().enumerate() {
             if oi % nshard != shard {
@@ -395,8 +397,12 @@ pub fn replay(args: &[String]) -> i32 {
                 let post = w.project();
                 j.step(&g, &w, s, ci, &pre, &outc, &post);
                 edges_done += 1;
+                let slot = by_op.entry(g.calls[ci]["op"].as_str().unwrap_or("?").to_string()).or_insert([0, 0]);
                 if e.is_ok() {
                     ok_edges += 1;
+                    slot[0] += 1;
+                } else {
+                    slot[1] += 1;
                 }
                 if post != pre {
                     // state changed (legitimately or not): start again from a fresh copy of s
@@ -451,7 +457,8 @@ pub fn replay(args: &[String]) -> i32 {
     j.out.flush().unwrap();
     let stats = json!({"states": ns, "calls": g.calls.len(), "edges_replayed": edges_done,
         "ok_edges": ok_edges, "unreached_states": unreached, "walks": walks, "walk_steps": walk_steps,
-        "residual": j.residual, "steps": j.steps});
+        "residual": j.residual, "steps": j.steps,
+        "by_op": by_op.iter().map(|(k, v)| (k.clone(), json!({"may_succeed": v[0], "must_fail": v[1]}))).collect::<serde_json::Map<String, J>>()});
     eprintln!("{}", stats);
     println!("{}", stats);
     0
